@@ -14,6 +14,7 @@ def gen_history(r, w):
     pos = 0
     lo, hi = 0, 1
     M = 1 << w
+    CAP = 1 << 21          # cells: the touched span grows multiplicatively; keep allocations below ~16 MB
     for _ in range(n):
         k = r.random()
 
@@ -45,6 +46,8 @@ def gen_history(r, w):
             ops.append("r:%d" % edge())
         elif k < 0.65:
             o = edge()
+            if max(hi, pos + o + 1) - min(lo, pos + o) > CAP:
+                o = r.randint(lo - pos, hi - pos - 1) if hi - lo > 1 else 0
             ops.append("w:%d:%d" % (o, r.choice([1, M - 1, r.below(M), 0, 255 % M])))
             lo, hi = min(lo, pos + o), max(hi, pos + o + 1)
         elif k < 0.85:
@@ -53,6 +56,8 @@ def gen_history(r, w):
             b = a + (0 if c == 0 else 1 if c == 1 else r.randint(1, 3 * max(1, hi - lo)) if c < 4 else -r.randint(1, 5))
             if r.random() < 0.3:   # below and above at once
                 a, b = lo - pos - r.randint(1, 40), hi - pos + r.randint(1, 40)
+            if b > a and max(hi, pos + b) - min(lo, pos + a) > CAP:
+                a, b = lo - pos - r.randint(0, 3), hi - pos + r.randint(0, 3)
             ops.append("a:%d:%d" % (a, b))
             if b > a:
                 lo, hi = min(lo, pos + a), max(hi, pos + b)
